@@ -158,6 +158,9 @@ impl<'a> Hist<'a> {
         let dst = self.w.fresh("s");
         let s = self.w.unsealed.get(src).unwrap().clone();
         let oracles = self.w.seal_oracles(&s);
+        if let Some(a) = &action {
+            self.w.names.reg_cov(a.reward_dest);
+        }
         let line = format!("seal {} {} {} {}", src, dst, action_text(&action), oracles);
         match silent(|| s.seal(action)) {
             Ok(sealed) => {
@@ -199,6 +202,9 @@ impl<'a> Hist<'a> {
         let dst = self.w.fresh("s");
         let s = self.w.sealed.get(src).unwrap().clone();
         let txs: Vec<Transaction> = block.transactions.iter().cloned().collect();
+        if let Some(a) = &block.proposer_action {
+            self.w.names.reg_cov(a.reward_dest);
+        }
         // the roots the honest post-state would have for this transaction set and action
         let honest = silent(|| {
             let mut nu = s.next_unsealed();
